@@ -910,8 +910,13 @@ class Interp:
                 if is_sym(k):
                     k = simplify_value(k)
                     if is_sym(k):
-                        raise OutOfSubset('symbolic key in dict comprehension')
-                out[k] = self.eval(e.value, sub)
+                        # keys that are symbolic strings: an ordered list of pairs (insertion order; duplicate keys are the caller's precondition)
+                        if isinstance(out, dict):
+                            out = self.lib.SymDict(list(out.items()))
+                if isinstance(out, dict):
+                    out[k] = self.eval(e.value, sub)
+                else:
+                    out.pairs.append((k, self.eval(e.value, sub)))
         return out
 
     def child_frame(self, fr: Frame) -> Frame:
